@@ -74,9 +74,16 @@ func (f *Frame) execBuiltin(res *ssa.Call, c *ssa.CallCommon, b *ssa.Builtin) {
 		f.st.heaps[heap] = ex.def("H."+heap, ex.heapSort(heap), "(ite "+isnil+" "+h+" (store "+h+" "+m.T+" "+nc+"))")
 	case "print", "println":
 	case "recover":
-		// only the normal (non-panicking) path of deferred functions is modelled
+		// nil on the normal path; the in-flight panic value when the enclosing frame is unwinding a caught panic
+		rv := "nil.Any"
+		for fr := f; fr != nil; fr = fr.parent {
+			if fr.panicMode {
+				rv = fr.recoverVal
+				break
+			}
+		}
 		if res != nil {
-			f.defReg(res, "nil.Any", nil)
+			f.defReg(res, rv, nil)
 		}
 		if !f.inRecoverCtx() {
 			ex.note("recover() outside modelled defer context in " + f.key)
